@@ -100,10 +100,17 @@ fn vx_clone<T: Clone>(x: &T) -> (r: T) ensures r == *x { x.clone() }
 // C14 allocation contract (R8): bounded by the input length plus the largest map a VALIDATED lg_max (<= 40 is not enough; the
 // counters read so far bound it): n counters of 8 bytes must come out of the image
 #[verifier::external_body]
-fn vx_alloc_u64s(n: usize, input_len: usize) -> (r: Vec<u64>)
+fn vx_alloc_raw_u64s(n: usize, input_len: usize) -> (r: Vec<u64>)
   requires /*@C14.fi.alloc_bounded*/ n * 8 <= 16 * input_len
   ensures r@.len() == 0
 { Vec::with_capacity(n) }
+// Obligations that FAIL on the current /repo sit in thin verified shims around the offending call (not in the parser): the failure is a
+// quick definite one in a tiny context, and the parser verifies cleanly under the stated assumption.  When the parser is repaired
+// (the field validated before the call) the `requires` moves back to the call site.
+// `Vec::with_capacity(active_items)` in deserialize_inner: active_items is an unvalidated u32 of the image
+fn vx_alloc_u64s(n: usize, input_len: usize) -> (r: Vec<u64>)
+  ensures r@.len() == 0
+{ vx_alloc_raw_u64s(n, input_len) }
 
 // =====================================================================================================================
 // codec/encode.rs, codec/decode.rs (real bodies; same contracts as in unit hll_codec8)
@@ -417,6 +424,12 @@ proof fn lemma_sum_step(vals: Seq<u64>, j: int)
     assert(vals.take(j + 1).drop_last() =~= vals.take(j));
     if j > 0 { lemma_sum_step(vals, j - 1); }
 }
+proof fn lemma_sum_nonneg(s: Seq<u64>) ensures sum_u64(s) >= 0 decreases s.len() { if s.len() > 0 { lemma_sum_nonneg(s.drop_last()); } }
+// positive counters: a zero sum means no counter at all
+proof fn lemma_sum_pos(s: Seq<u64>) requires vals_pos(s) ensures s.len() > 0 ==> sum_u64(s) > 0 {
+    reveal(vals_pos);
+    if s.len() > 0 { lemma_sum_nonneg(s.drop_last()); assert(s.last() == s[s.len() - 1]); }
+}
 proof fn lemma_sum_mono(vals: Seq<u64>, j: int)
   requires 0 <= j <= vals.len()
   ensures sum_u64(vals.take(j)) <= sum_u64(vals)
@@ -513,7 +526,8 @@ struct FrequentItemsSketch<T> {
 //   0 preLongs (1 empty, 4) | 1 serVer=1 | 2 famID=10 | 3 lgMaxMapSize | 4 lgCurMapSize | 5 flags: EMPTY = bit 2, readers also
 //   accept bit 0; Java's EMPTY_FLAG_MASK = 5 sets both (recorded correction of Appendix A) | 6-7 unused
 //   8 activeItems u32 | 12 unused | 16 streamWeight u64 | 24 offset u64 | 32 activeItems u64 counters | then the items
-//   An EMPTY image is preLongs = 1 long = 8 bytes.
+//   An EMPTY image is preLongs = 1 long = 8 bytes; it denotes the sketch that never saw weight (stream weight 0).  A sketch whose last
+//   purge emptied the map is a preLongs = 4 image with activeItems = 0 (it still has a stream weight and an offset).
 // =====================================================================================================================
 ghost struct FiImg<T> {
     lg_max: u8,
@@ -598,6 +612,24 @@ impl<T: Eq + Hash> FrequentItemsSketch<T> {
             final(self).offset == old(self).offset && upd_exact(old(self).hash_map, final(self).hash_map, item, count),
     { unimplemented!() }
 
+    // thin verified shims (see vx_alloc_u64s): deserialize_inner calls with_lg_map_sizes with lg_max straight from the image (`1usize << lg`
+    // panics for lg >= 64, allocates 2^lg slots below that) ...
+    fn vx_with_lg_map_sizes(lg_max_map_size: u8, lg_cur_map_size: u8) -> (r: Self)
+      requires eq_law::<T>(), lg_cur_map_size <= lg_max_map_size || lg_cur_map_size <= LG_MIN_MAP_SIZE,
+      ensures r.cwf(), r.lg_max_map_size == lgmax3(lg_max_map_size), r.hash_map.lg_length == lgmax3(lg_cur_map_size), r.hash_map.num_active == 0,
+        r.stream_weight == 0, r.offset == 0, forall|k: T| !r.hash_map.holds(k),
+    { Self::with_lg_map_sizes(lg_max_map_size, lg_cur_map_size) }
+
+    // ... and update_with_count with counters straight from the image (`stream_weight += count` overflows)
+    fn vx_update_with_count(&mut self, item: T, count: u64)
+      requires old(self).cwf(),
+      ensures final(self).cwf(), final(self).lg_max_map_size == old(self).lg_max_map_size,
+        final(self).stream_weight == old(self).stream_weight + count,
+        count == 0 ==> final(self).hash_map == old(self).hash_map && final(self).offset == old(self).offset,
+        count > 0 && (old(self).hash_map.holds(item) || old(self).hash_map.num_active < old(self).cur_map_cap) ==>
+            final(self).offset == old(self).offset && upd_exact(old(self).hash_map, final(self).hash_map, item, count),
+    { self.update_with_count(item, count) }
+
     fn serialize_inner(
         &self,
         count_serialize_size: impl Fn(&[T]) -> usize,
@@ -614,10 +646,11 @@ impl<T: Eq + Hash> FrequentItemsSketch<T> {
         forall|b: &mut SketchBytes, it: &[T]| #[trigger] serialize_items.requires((b, it)),
         forall|b: &mut SketchBytes, it: &[T]| #[trigger] serialize_items.ensures((b, it), ()) ==> final(b)@ == (*b)@ + enc_items(it@),
       ensures
-        /*@C12.fi.image_empty*/ self.hash_map.num_active == 0 ==> r@ == enc_fi_empty(self.lg_max_map_size, self.hash_map.lg_length),
-        /*@C12.fi.image*/ self.hash_map.num_active > 0 ==> r@ == enc_fi_nonempty(self.view()),
+        // EMPTY image iff the sketch never saw weight; a sketch emptied by its last purge is a full image with 0 rows
+        /*@C12.fi.image_empty*/ self.stream_weight == 0 ==> r@ == enc_fi_empty(self.lg_max_map_size, self.hash_map.lg_length),
+        /*@C12.fi.image*/ self.stream_weight > 0 ==> r@ == enc_fi_nonempty(self.view()),
     {
-        if self.is_empty() {
+        if self.stream_weight == 0 {
             let mut bytes = SketchBytes::with_capacity(8);
             bytes.write_u8(PREAMBLE_LONGS_EMPTY);
             bytes.write_u8(SERIAL_VERSION);
@@ -625,8 +658,10 @@ impl<T: Eq + Hash> FrequentItemsSketch<T> {
             bytes.write_u8(self.lg_max_map_size);
             bytes.write_u8(self.hash_map.lg_length());
             bytes.write_u8(EMPTY_FLAG_MASK);
+            bytes.write_u16_le(0); // unused: the preamble is one full long
             proof {
                 // an EMPTY image is one preamble long (8 bytes)
+                assert(le16_bytes(0) =~= seq![0u8, 0u8]) by { assert(0u16 & 0xff == 0 && (0u16 >> 8) & 0xff == 0) by (bit_vector); }
                 if bytes@.len() == 8 { assert(bytes@ =~= enc_fi_empty(self.lg_max_map_size, self.hash_map.lg_length)); }
             }
             return bytes.into_bytes();
@@ -701,7 +736,6 @@ impl<T: Eq + Hash> FrequentItemsSketch<T> {
               && hdr_pre(bytes@) == (if hdr_empty(bytes@) { 1u8 } else { 4u8 }),
         /*@C14.fi.rejects_truncated*/ r is Ok && !hdr_empty(bytes@) ==> (bytes@.len() >= 32 + 8 * hdr_n(bytes@) && (dec_keys::<T>(bytes@) matches Some(ks) && ks.len() == hdr_n(bytes@))),
         /*@C14.fi.cwf*/ r matches Ok(a) ==> a.cwf(),
-        /*@C14.fi.wf_weights*/ r matches Ok(a) ==> a.wf_weights(),
     {
         let ghost b = bytes@;
         let mut cursor = SketchSlice::new(bytes);
@@ -739,7 +773,7 @@ impl<T: Eq + Hash> FrequentItemsSketch<T> {
         if is_empty {
             proof { assert([PREAMBLE_LONGS_EMPTY]@ =~= seq![1u8]); assert(seq![1u8][0] == 1u8); }
             ensure_preamble_longs_in(&[PREAMBLE_LONGS_EMPTY], pre_longs)?;
-            return Ok(Self::with_lg_map_sizes(lg_max, lg_cur));
+            return Ok(Self::vx_with_lg_map_sizes(lg_max, lg_cur));
         }
 
         proof { assert([PREAMBLE_LONGS_NONEMPTY]@ =~= seq![4u8]); assert(seq![4u8][0] == 4u8); }
@@ -796,7 +830,7 @@ impl<T: Eq + Hash> FrequentItemsSketch<T> {
         let ghost zs = zip_seq(ks, vs);
         let ghost j: int = 0;
         let ghost lg = lgmax3(lg_cur);
-        let mut sketch = Self::with_lg_map_sizes(lg_max, lg_cur);
+        let mut sketch = Self::vx_with_lg_map_sizes(lg_max, lg_cur);
         proof {
             assert(zs.skip(0) =~= zs);
             lemma_loaded_init(sketch.hash_map, ks, vs, lg);
@@ -819,7 +853,7 @@ impl<T: Eq + Hash> FrequentItemsSketch<T> {
                         assert(zs.skip(j)[0] == zs[j]);
                         assert(zs.skip(j).skip(1) =~= zs.skip(j + 1));
                     }
-                    sketch.update_with_count(item, value);
+                    sketch.vx_update_with_count(item, value);
                     proof {
                         if vld { reveal(loaded); lemma_loaded_step(m0, sw0, sketch.hash_map, ks, vs, j, lg, cap_of_lg(lg)); }
                         j = j + 1;
@@ -950,7 +984,7 @@ proof fn lemma_rows_of_map<T>(m: ReversePurgeItemHashMap<T>)
 // C11 at spec level (lemma L): the spec decoder reads back what the spec encoder wrote
 // =====================================================================================================================
 proof fn lemma_fi_roundtrip<T>(v: FiImg<T>)
-  requires item_codec_law::<T>(), v.lg_cur <= v.lg_max <= 40, 3 <= v.lg_cur, v.vals.len() == v.keys.len(), 0 < v.vals.len() <= u32::MAX,
+  requires item_codec_law::<T>(), v.lg_cur <= v.lg_max <= 40, 3 <= v.lg_cur, v.vals.len() == v.keys.len(), v.vals.len() <= u32::MAX,
     v.vals.len() <= cap_of_lg(v.lg_cur), distinct(v.keys), vals_pos(v.vals), sum_u64(v.vals) + v.off <= v.sw,
   ensures ({ let e = enc_fi_nonempty(v);
     &&& /*@C13.fi.encoder_valid*/ valid_fi_image::<T>(e) && !hdr_empty(e)
@@ -992,10 +1026,8 @@ fn c11_roundtrip_fi<T: Eq + Hash + Clone>(
     forall|c: SketchSlice<'_>, n: usize, res: Result<Vec<T>, Error>| #[trigger] deserialize_items.ensures((c, n), res) ==>
         (res matches Ok(v) ==> dec_items::<T>(c.rem(), n as int) == Some(v@)) && (res is Err ==> dec_items::<T>(c.rem(), n as int) is None),
   ensures
-    /*@C11.fi.roundtrip*/ a.hash_map.num_active > 0 ==> b.stream_weight == a.stream_weight && b.offset == a.offset && b.lg_max_map_size == a.lg_max_map_size
-        && b.hash_map.lg_length == a.hash_map.lg_length && b.hash_map.num_active == a.hash_map.num_active
+    /*@C11.fi.roundtrip*/ b.lg_max_map_size == a.lg_max_map_size && b.hash_map.lg_length == a.hash_map.lg_length && b.hash_map.num_active == a.hash_map.num_active
         && (forall|k: T| b.hash_map.holds(k) == a.hash_map.holds(k)) && (forall|k: T| b.hash_map.val(k) == a.hash_map.val(k)),
-    /*@C11.fi.roundtrip_empty*/ a.hash_map.num_active == 0 ==> b.hash_map.num_active == 0 && b.lg_max_map_size == a.lg_max_map_size && b.hash_map.lg_length == a.hash_map.lg_length,
     // a sketch whose last purge emptied the map still has a stream weight and an offset (maximum error)
     /*@C11.fi.purged_empty*/ b.stream_weight == a.stream_weight && b.offset == a.offset,
 {
@@ -1003,12 +1035,33 @@ fn c11_roundtrip_fi<T: Eq + Hash + Clone>(
     proof {
         lemma_rows_of_map(a.hash_map);
         lemma_act_pos(a.hash_map.values@, a.hash_map.states@, a.hash_map.states@.len() as int);
-        if a.hash_map.num_active > 0 { lemma_fi_roundtrip(a.view()); }
-        else { assert(5u8 & 5u8 != 0u8 && 1u8 & 0x3f == 1u8) by (bit_vector); }
+        lemma_sum_nonneg(a.hash_map.avals());
+        if a.stream_weight > 0 { lemma_fi_roundtrip(a.view()); }
+        else {
+            // no weight: no positive counter, no offset
+            assert(5u8 & 5u8 != 0u8 && 1u8 & 0x3f == 1u8) by (bit_vector);
+            lemma_sum_pos(a.hash_map.avals());
+            assert forall|k: T| !a.hash_map.holds(k) by { }
+        }
     }
     let r = FrequentItemsSketch::<T>::deserialize_inner(img.as_slice(), deserialize_items);
     match r {
-        Ok(b) => b,
+        Ok(b) => {
+            proof {
+                if a.stream_weight > 0 {
+                    assert(b.hash_map.num_active == a.hash_map.num_active);
+                    assert forall|k: T| b.hash_map.holds(k) == a.hash_map.holds(k) by { }
+                    assert forall|k: T| b.hash_map.val(k) == a.hash_map.val(k) by { }
+                } else {
+                    assert(a.hash_map.num_active == 0);
+                    assert forall|k: T| b.hash_map.val(k) == a.hash_map.val(k) by {
+                        assert(a.hash_map.akeys().contains(k) == a.hash_map.holds(k));
+                        assert(!a.hash_map.holds(k) && !b.hash_map.holds(k));
+                    }
+                }
+            }
+            b
+        }
         Err(_) => { proof { assert(false); } c11_unreachable_fi() }
     }
 }
@@ -1040,8 +1093,8 @@ impl<T: FrequentItemValue> FrequentItemsSketch<T> {
     fn serialize(&self) -> (r: Vec<u8>)
       requires self.hash_map.mwf(), self.hash_map.num_active <= u32::MAX,
       ensures
-        self.hash_map.num_active == 0 ==> r@ == enc_fi_empty(self.lg_max_map_size, self.hash_map.lg_length),
-        self.hash_map.num_active > 0 ==> r@ == enc_fi_nonempty(self.view()),
+        self.stream_weight == 0 ==> r@ == enc_fi_empty(self.lg_max_map_size, self.hash_map.lg_length),
+        self.stream_weight > 0 ==> r@ == enc_fi_nonempty(self.view()),
     { unimplemented!() }
 
     #[verifier::external_body]
@@ -1050,6 +1103,25 @@ impl<T: FrequentItemValue> FrequentItemsSketch<T> {
         valid_fi_image::<T>(bytes@) ==> r is Ok,
         r matches Ok(a) ==> a.cwf(),
     { unimplemented!() }
+}
+
+// =====================================================================================================================
+// C14 clauses the parser does NOT establish on the current /repo, stated on a wrapper (not real code) so that deserialize_inner itself
+// verifies cleanly: each one is a finding with a replayed input.  When the parser is repaired the clause moves back into its `ensures`.
+// =====================================================================================================================
+fn c14_fi_deserialize_inner_wf<T: Eq + Hash>(
+    bytes: &[u8],
+    deserialize_items: impl Fn(SketchSlice<'_>, usize) -> Result<Vec<T>, Error>,
+) -> (r: Result<FrequentItemsSketch<T>, Error>)
+  requires eq_law::<T>(),
+    forall|c: SketchSlice<'_>, n: usize| #[trigger] deserialize_items.requires((c, n)),
+    forall|c: SketchSlice<'_>, n: usize, res: Result<Vec<T>, Error>| #[trigger] deserialize_items.ensures((c, n), res) ==>
+        (res matches Ok(v) ==> dec_items::<T>(c.rem(), n as int) == Some(v@)) && (res is Err ==> dec_items::<T>(c.rem(), n as int) is None),
+  ensures
+    // stream weight and offset are taken from the image without comparing them with the counters
+    /*@C14.fi.wf_weights*/ r matches Ok(a) ==> a.wf_weights(),
+{
+    FrequentItemsSketch::<T>::deserialize_inner(bytes, deserialize_items)
 }
 
 }
